@@ -4,6 +4,8 @@
    (symbolic physical qubits and device tables). Slot conventions of the gate-set methods are those proved in C06. *)
 From Coq Require Import QArith List String Bool.
 Require Import QG.Sym.Expr QG.Sym.ExprEq QG.Model.Handoff QG.Proofs.GateRefl QG.Proofs.HandoffRefl QG.Gen.GenCircuit.
+Require Import QG.Base.State QG.Base.Mat QG.Base.Perm QG.Proofs.Relabel QG.Proofs.RelabelRank QG.Proofs.RelabelSum QG.Proofs.RelabelMain.
+Require QG.Proofs.RelabelMsum QG.Proofs.RelabelLayout.
 Import ListNotations.
 Close Scope Q_scope.
 Open Scope string_scope.
@@ -61,10 +63,196 @@ Theorem C08_layered_model_own : forall n c t, c < n -> t < n -> c <> t ->
 Proof. exact layered_model_own. Qed.
 Print Assumptions C08_layered_model_own.
 
-(* NOT theorems here (decided by the correspondence and oracle runs of checks/c08.py only, see the registry note):
-   run_is_spec for whole circuits (the composition of these per-instruction tables with the builder state machines of
-   C11 and the layer / item semantics of C01 / C02), invariance under relabelling of the physical qubits, and
-   "measuring a subset gives the marginal of measuring all" (the marginalisation itself is C14_marginal_correct). *)
+(* ====================================================================================================================
+   7-13. The last sentence of the property: "Relabelling the physical qubits together with their calibration data (and the
+   initial state's tensor factors) leaves the result unchanged, and measuring a subset gives the marginal of measuring all."
+   Both clauses are theorems at the level of the item semantics of Base/State.v (shared with C01/C02/C03/C18), for the
+   index-based circuit class and a deterministic gate set.  Proofs: Base/Perm.v, Proofs/Relabel*.v.
+
+   MODEL (Proofs/Relabel.v, Proofs/RelabelMain.v).
+     L          the used physical labels (distinct naturals); internal index of q = rank L q = number of used labels < q
+                (C08_layout_is_rank: this is what C14's model of _process_layout / list.index computes);
+     circuit    list of  P1 o q | P2 o c t  on physical labels (measure and barrier are not operations);
+     GATE SET   gate1 : op1 -> ph -> cal -> option (2x2)   gate2 : op2 -> ph -> ph -> cal -> cal -> cal2 -> 4x4 on the
+                ordered pair (control, target);  ro : cal -> 2x2 (read-out layer);  next1/next2: new virtual phases of
+                the operation's own qubits.  I.e. a gate set is a FUNCTION OF THE OPERATION KIND (with its own parameters:
+                angle, delay duration, a fixed noise realisation) AND OF THE OWN VALUES (phases, per-qubit calibration
+                record, per-ordered-pair calibration record) of the qubits acted on -- theorems 1-6 above say the
+                simulator calls the plugged gate set with exactly these own values.  All of it is abstract (any types).
+     run L T1 T2 circ ph0 psi   = sem (internalise (rank L) T1 T2 circ (fun _ => ph0) ++ readout ...) psi.
+     Relabelling by pi (injective on L): labels map pi L, circuit map (relabel pi) circ, tables with T1' (pi q) = T1 q and
+     T2' (pi c) (pi t) = T2 c t, initial state psi' with psi' (permute s b) = psi b where s = induced L pi is the induced
+     permutation of the internal indices (s (rank L q) = rank (map pi L) (pi q)); for a product state this is exactly the
+     re-ordering of the tensor factors (C08_relabel_product_state).
+     permute s b: the bit list whose position s q holds bit q of b.  encode L a: internal bit list of the assignment
+     a : label -> bool.  marg n w pos t: total weight of the bit lists of length n showing key t at the positions pos. *)
+
+(* 7. Permutations of qubit positions acting on bit lists (Base/Perm.v). *)
+Theorem C08_permute_laws : forall (n : nat) (s : nat -> nat) (b : bits) (q : nat) (v : bool),
+  perm_on n s -> List.length b = n -> q < n ->
+  List.length (permute s b) = n /\ get (permute s b) (s q) = get b q /\
+  upd (permute s b) (s q) v = permute s (upd b q v) /\
+  unpermute s (permute s b) = b /\ permute s (unpermute s b) = b /\ permute (inv_of n s) b = unpermute s b.
+Proof.
+  intros n s b q v Hp L Hq. subst n. repeat split.
+  - apply permute_length.
+  - now apply get_permute.
+  - now apply permute_upd.
+  - now apply unpermute_permute.
+  - now apply permute_unpermute.
+  - now apply permute_inv.
+Qed.
+Print Assumptions C08_permute_laws.
+
+(* 8. Equivariance of the item semantics (any scalar type with an addition and a multiplication): renaming the items by s and reading the initial
+      state through s permutes the final state by s. *)
+Theorem C08_sem_equivariant : forall (R : Type) (radd rmul : R -> R -> R) (n : nat) (s : nat -> nat),
+  perm_on n s -> forall (items : list (item R)) (psi : bits -> R) (b : bits),
+  Forall (item_lt R n) items -> List.length b = n ->
+  sem R radd rmul (map (rename R s) items) (transport R s psi) (permute s b) = sem R radd rmul items psi b.
+Proof. exact sem_equiv. Qed.
+Print Assumptions C08_sem_equivariant.
+
+(* 9. relabel_invariant: the final amplitude function read through the induced permutation is unchanged; equivalently, per
+      assignment of bits to PHYSICAL qubits (a' (pi q) = a q) the amplitude, hence the Born weight, is unchanged. *)
+Theorem C08_relabel_invariant :
+  forall (R : Type) (rO rI : R) (radd rmul rsub : R -> R -> R) (ropp : R -> R),
+  Ring_theory.ring_theory rO rI radd rmul rsub ropp eq ->
+  forall (cal cal2 ph op1 op2 : Type)
+    (gate1 : op1 -> ph -> cal -> option (m2 R)) (next1 : op1 -> ph -> ph)
+    (gate2 : op2 -> ph -> ph -> cal -> cal -> cal2 -> m4 R) (next2 : op2 -> ph -> ph -> ph * ph) (ro : cal -> m2 R)
+    (L : list nat) (pi : nat -> nat) (T1 T1' : nat -> cal) (T2 T2' : nat -> nat -> cal2)
+    (circ : list (pop op1 op2)) (ph0 : ph) (psi psi' : bits -> R),
+  NoDup L -> inj_on L pi -> Forall (pop_on op1 op2 L) circ ->
+  (forall q, In q L -> T1' (pi q) = T1 q) ->
+  (forall c t, In c L -> In t L -> T2' (pi c) (pi t) = T2 c t) ->
+  (forall b, List.length b = List.length L -> psi' (permute (induced L pi) b) = psi b) ->
+  let final := run R radd rmul cal cal2 ph op1 op2 gate1 next1 gate2 next2 ro L T1 T2 circ ph0 psi in
+  let final' := run R radd rmul cal cal2 ph op1 op2 gate1 next1 gate2 next2 ro (map pi L) T1' T2' (map (relabel op1 op2 pi) circ) ph0 psi' in
+  perm_on (List.length L) (induced L pi) /\
+  (forall q, In q L -> induced L pi (rank L q) = rank (map pi L) (pi q)) /\
+  (forall b, List.length b = List.length L -> final' (permute (induced L pi) b) = final b) /\
+  (forall a a' : nat -> bool, (forall q, In q L -> a' (pi q) = a q) -> final' (encode (map pi L) a') = final (encode L a)).
+Proof.
+  intros R rO rI radd rmul rsub ropp Rth cal cal2 ph op1 op2 gate1 next1 gate2 next2 ro L pi T1 T1' T2 T2' circ ph0 psi psi'
+         HL Hpi Hc HT1 HT2 Hpsi final final'.
+  split; [now apply induced_perm|]. split; [intros q Hq; now apply induced_spec|]. split.
+  - exact (relabel_invariant_bits R rO rI radd rmul rsub ropp Rth cal cal2 ph op1 op2 gate1 next1 gate2 next2 ro L pi T1 T1' T2 T2' circ ph0 psi psi' HL Hpi Hc HT1 HT2 Hpsi).
+  - exact (relabel_invariant_assignment R rO rI radd rmul rsub ropp Rth cal cal2 ph op1 op2 gate1 next1 gate2 next2 ro L pi T1 T1' T2 T2' circ ph0 psi psi' HL Hpi Hc HT1 HT2 Hpsi).
+Qed.
+Print Assumptions C08_relabel_invariant.
+
+(* 10. ... and so is the distribution over the keys of ANY list M of measured physical qubits (weights in any commutative
+       ring W, Born rule = any function born : R -> W): measuring the qubits map pi M of the relabelled run gives every key
+       the weight that measuring M gives it in the original run. *)
+Theorem C08_relabel_invariant_marginal :
+  forall (R : Type) (rO rI : R) (radd rmul rsub : R -> R -> R) (ropp : R -> R),
+  Ring_theory.ring_theory rO rI radd rmul rsub ropp eq ->
+  forall (W : Type) (wO wI : W) (wadd wmul wsub : W -> W -> W) (wopp : W -> W),
+  Ring_theory.ring_theory wO wI wadd wmul wsub wopp eq ->
+  forall (born : R -> W) (cal cal2 ph op1 op2 : Type)
+    (gate1 : op1 -> ph -> cal -> option (m2 R)) (next1 : op1 -> ph -> ph)
+    (gate2 : op2 -> ph -> ph -> cal -> cal -> cal2 -> m4 R) (next2 : op2 -> ph -> ph -> ph * ph) (ro : cal -> m2 R)
+    (L : list nat) (pi : nat -> nat) (T1 T1' : nat -> cal) (T2 T2' : nat -> nat -> cal2)
+    (circ : list (pop op1 op2)) (ph0 : ph) (psi psi' : bits -> R),
+  NoDup L -> inj_on L pi -> Forall (pop_on op1 op2 L) circ ->
+  (forall q, In q L -> T1' (pi q) = T1 q) ->
+  (forall c t, In c L -> In t L -> T2' (pi c) (pi t) = T2 c t) ->
+  (forall b, List.length b = List.length L -> psi' (permute (induced L pi) b) = psi b) ->
+  forall (M : list nat) (t : bits), Forall (fun q => In q L) M ->
+  marg W wO wadd (List.length L)
+    (fun b => born (run R radd rmul cal cal2 ph op1 op2 gate1 next1 gate2 next2 ro (map pi L) T1' T2' (map (relabel op1 op2 pi) circ) ph0 psi' b))
+    (map (rank (map pi L)) (map pi M)) t
+  = marg W wO wadd (List.length L)
+    (fun b => born (run R radd rmul cal cal2 ph op1 op2 gate1 next1 gate2 next2 ro L T1 T2 circ ph0 psi b))
+    (map (rank L) M) t.
+Proof. exact relabel_invariant_marginal. Qed.
+Print Assumptions C08_relabel_invariant_marginal.
+
+(* the initial state's tensor factors: a product state with factor u q on physical qubit q, relabelled with u' (pi q) = u q,
+   satisfies the hypothesis on psi' of theorems 9 and 10 *)
+Theorem C08_relabel_product_state :
+  forall (R : Type) (rO rI : R) (radd rmul rsub : R -> R -> R) (ropp : R -> R),
+  Ring_theory.ring_theory rO rI radd rmul rsub ropp eq ->
+  forall (L : list nat) (pi : nat -> nat) (u u' : nat -> bool -> R) (b : bits),
+  NoDup L -> inj_on L pi -> (forall q, In q L -> u' (pi q) = u q) -> List.length b = List.length L ->
+  prod_state R rI rmul (map pi L) u' (permute (induced L pi) b) = prod_state R rI rmul L u b.
+Proof. exact prod_state_relabel. Qed.
+Print Assumptions C08_relabel_product_state.
+
+(* 11. subset_is_marginal: for ANY weight function w on the internal bit lists (in particular the Born weights of a run --
+       the run does not take the measured set as an argument), measuring the sub-selection M'[idx_0], M'[idx_1], ... of the
+       measured physical qubits M' gives under key t the sum of the weights that measuring M' gives under the keys t' (all
+       strings of |M'| characters) whose characters at idx spell t. *)
+Theorem C08_subset_is_marginal :
+  forall (W : Type) (wO wI : W) (wadd wmul wsub : W -> W -> W) (wopp : W -> W),
+  Ring_theory.ring_theory wO wI wadd wmul wsub wopp eq ->
+  forall (L : list nat) (w : bits -> W) (M' idx : list nat) (t : bits),
+  Forall (fun k => k < List.length M') idx ->
+  marg W wO wadd (List.length L) w (map (rank L) (map (fun k => nth k M' 0) idx)) t
+  = bsum W wadd (List.length M') (fun t' => if beq (bsel t' idx) t then marg W wO wadd (List.length L) w (map (rank L) M') t' else wO).
+Proof. exact subset_is_marginal_physical. Qed.
+Print Assumptions C08_subset_is_marginal.
+
+(* 12. The same in the vocabulary of C14 (real-valued probability vector `final` of the simulator model; C14_marginal_correct:
+       the returned value under key t is msum final n pos t): the dictionary for the sub-selection is the marginal of the
+       dictionary for pos'; and dictionaries of probability vectors that agree through a permutation of the bit positions agree. *)
+Theorem C08_subset_is_marginal_simulator :
+  forall (final : list Rdefinitions.R) (n : nat) (pos' idx : list nat) (t : list bool),
+  0 < n -> Forall (fun k => k < List.length pos') idx ->
+  SimRunProofs.msum final n (map (fun k => nth k pos' 0) idx) t
+  = SimRunProofs.rsum (map (fun t' => SimRunProofs.msum final n pos' t')
+                           (filter (fun t' => FixCounts.key_eqb (SimRunKeys.sel t' idx) t) (FixCountsKeys.all_keys (List.length pos')))).
+Proof. exact RelabelMsum.msum_subset_is_marginal. Qed.
+Print Assumptions C08_subset_is_marginal_simulator.
+
+Theorem C08_relabel_invariant_simulator :
+  forall (final final' : list Rdefinitions.R) (n : nat) (s : nat -> nat) (pos : list nat) (t : list bool),
+  0 < n -> perm_on n s -> Forall (fun q => q < n) pos ->
+  (forall b, List.length b = n -> RelabelMsum.weights_of final' (permute s b) = RelabelMsum.weights_of final b) ->
+  SimRunProofs.msum final' n (map s pos) t = SimRunProofs.msum final n pos t.
+Proof. exact RelabelMsum.msum_relabel. Qed.
+Print Assumptions C08_relabel_invariant_simulator.
+
+(* 13. The rank layout is the layout of the simulator model of C14 (Model/SimRun.v, tied to _process_layout, run and
+       _measurament by C14's correspondence run): the used labels come out distinct, list.index of a used label in the sorted
+       list is its rank, and the measured positions are the ranks of the measured labels. *)
+Theorem C08_layout_is_rank :
+  forall (data : list SimRun.instr) (used : list BinNums.N) (meas : list (BinNums.N * BinNums.N)) (n : nat),
+  Forall SimRunProofs.wf_instr data -> SimRun.process_layout data = Res.Ok (used, meas, n) ->
+  let L := map BinNat.N.to_nat used in
+  NoDup L /\ n = List.length L /\
+  (forall q, In q used -> SimRun.index_of q used = Some (rank L (BinNat.N.to_nat q))) /\
+  SimRunKeys.positions_of meas used = map (rank L) (map (fun qc => BinNat.N.to_nat (fst qc)) meas).
+Proof. exact RelabelLayout.process_layout_rank. Qed.
+Print Assumptions C08_layout_is_rank.
+
+(* WHAT IS STILL DECIDED ONLY BY THE CORRESPONDENCE / ORACLE RUNS of checks/c08.py (see the registry note):
+   - run_is_spec for whole circuits: that the real simulator with the real circuit classes computes `run` for the plugged
+     gate set, i.e. the composition of the per-instruction hand-off tables (theorems 1-6) with the builder state machines
+     of C11 and the layer / item semantics of C01 / C02 (the oracle compares call logs and statevectors exactly);
+   - that measure and barrier instructions produce no gate-set call: the regenerated tables gen_sim_binary /
+     gen_sim_layered (theorems 3 and 5) enumerate exactly the six kinds rz, sx, x, cx, ecr, delay that produce calls, the
+     tracer does not execute a measure instruction; the recorded call logs of the oracle runs cover it;
+   - that both measured sets lead to the SAME used-label list L: _process_layout also counts a measured qubit as used, so
+     measuring an otherwise untouched qubit enlarges the layout (then n and psi0 differ and theorem 11 does not apply);
+   - direction consistency of the plugged gate set: that CNOT / CNOT_inv (ECR / ECR_inv), placed with slot 0 = lower
+     internal index (theorem 1), are the same matrix on the ordered pair (control, target) -- a relabelling may swap which
+     of the two qubits has the lower internal index.  The model's gate2 takes this for granted;
+   - gate sets that sample noise: a relabelling changes neither the own values nor the order of the operations, but for the
+     read-out layer (and for the layered classes) it changes the order in which the qubits draw their random numbers;
+   - the layered (non index-based) classes, whose layout is the identity on 0..n-1. *)
+
+Example C08_relabel_example :
+  let L := [2; 5] in let pi := fun q => if Nat.eqb q 2 then 7 else 1 in
+  NoDup L /\ inj_on L pi /\ map pi L = [7; 1] /\ map (rank L) L = [0; 1] /\ map (rank (map pi L)) (map pi L) = [1; 0] /\
+  map (induced L pi) [0; 1] = [1; 0] /\ permute (induced L pi) [true; false] = [false; true] /\
+  encode L (fun q => Nat.eqb q 2) = [true; false] /\ encode (map pi L) (fun q => Nat.eqb q 7) = [false; true].
+Proof.
+  cbv zeta. split. { repeat constructor; cbn; intuition discriminate. }
+  split. { intros a b [<-|[<-|[]]] [<-|[<-|[]]]; cbn; intros E; try reflexivity; discriminate E. }
+  repeat split; vm_compute; reflexivity.
+Qed.
 
 Example C08_example : List.length gen_handoff = 44%nat.
 Proof. vm_compute. reflexivity. Qed.
